@@ -16,7 +16,7 @@ pub fn meta() -> Meta {
     Meta {
         id: "C08",
         level: "model_checking",
-        rule: "explicit-state BFS over the subset lattice: state = .skf content (hidden fields included) of the remaining samples, actions = the real generic_modes::delete of every non-empty proper subset of the current names, the names given in every order (up to three names; file order, reversed and rotated above) (quick: n<=5 and n=7 with single deletions; thorough: n<=6 and the full lattice for n=8), so every subset is reached along every chain; the lattice is explored from the freshly built file and again from the same file after `weed --filter-ambig-as-missing` (stored counts that exclude ambiguous bases); invariant in every state of the fresh lattice: the file equals the model table and the real fresh build of the remaining samples (order kept, rows of deleted-only k-mers gone, stored counts = fresh counts). CLI family: names on the command line vs one-per-line names file (with/without trailing newline, blank line, CRLF line ends, trailing blanks), in place and with -o; refusals (unknown name, all samples) must exit non-zero and leave the file byte-identical. Search paths are re-executed through `ska delete`.".into(),
+        rule: "explicit-state BFS over the subset lattice: state = .skf content (hidden fields included) of the remaining samples, actions = the real generic_modes::delete of every non-empty proper subset of the current names, the names given in every order (up to three names; file order, reversed and rotated above) (quick: n<=5 and n=7 with single deletions; thorough: n<=6 and the full lattice for n=8), so every subset is reached along every chain; the lattice is explored from the freshly built file and again from the same file after `weed --filter-ambig-as-missing` (stored counts that exclude ambiguous bases); invariant in every state of the fresh lattice: the file equals the model table and the real fresh build of the remaining samples (order kept, rows of deleted-only k-mers gone, stored counts = fresh counts). CLI family: names on the command line vs one-per-line names file (with/without trailing newline, blank line, CRLF line ends, trailing blanks; sample names that contain a space), in place and with -o; refusals (unknown name, all samples) must exit non-zero and leave the file byte-identical. Search paths are re-executed through `ska delete`.".into(),
         assumptions: vec!["sorted-row canonical form: delete treats rows independently".into()],
         exhaustive_when_uncapped: true, // the declared bounded space (all selections / the whole lattice / all histories up to the depth bound / all interleavings and configurations) is enumerated completely unless capped
     }
@@ -226,6 +226,70 @@ fn cli_family(ctx: &Ctx, rep: &mut Report, idx: &mut u64) {
     }
 }
 
+/// sample names that contain a space (they come from file names): command line and names file must agree
+fn spaced_names(ctx: &Ctx, rep: &mut Report, idx: &mut u64) {
+    for k in [7usize, 33] {
+        *idx += 1;
+        if !ctx.mine(*idx) {
+            continue;
+        }
+        let pool = samples::pool(k, ctx.seed);
+        let dir = scratch::path(&format!("c08sp{k}"));
+        let _ = std::fs::create_dir_all(&dir);
+        let fnames = ["sample.fa", "sample A.fa", "other.fa", "x 1.fa"];
+        let names: Vec<String> = vec!["sample".into(), "sample A".into(), "other".into(), "x 1".into()];
+        for (i, f) in fnames.iter().enumerate() {
+            std::fs::write(format!("{dir}/{f}"), scratch::fasta(&pool[i])).unwrap();
+        }
+        let ks = k.to_string();
+        let mut a = vec!["build", "-k", &ks, "-o", "sp"];
+        a.extend(fnames.iter());
+        if cli::run(&a, &dir, None).code != 0 {
+            rep.machinery("C08 spaced names: build failed".into());
+            continue;
+        }
+        let orig = match FileState::read(&format!("{dir}/sp.skf")) {
+            Ok(s) => s,
+            Err(e) => {
+                rep.machinery(format!("C08 spaced names: {e}"));
+                continue;
+            }
+        };
+        if orig.table.names != names {
+            // the builder derives other names than assumed: nothing to check here
+            rep.corner("spaced_names_not_derived_as_assumed");
+            continue;
+        }
+        for del in [vec!["sample A".to_string()], vec!["x 1".to_string(), "sample".to_string()], vec!["sample".to_string()]] {
+            let want = orig.table.delete(&del);
+            for via_file in [false, true] {
+                rep.evaluations += 1;
+                rep.nontrivial += 1;
+                rep.corner("cli_names_with_spaces");
+                let _ = std::fs::remove_file(format!("{dir}/o.skf"));
+                let mut args: Vec<String> = vec!["delete".into(), "-s".into(), "sp.skf".into(), "-o".into(), "o".into()];
+                if via_file {
+                    std::fs::write(format!("{dir}/names.txt"), del.join("\n") + "\n").unwrap();
+                    args.push("-f".into());
+                    args.push("names.txt".into());
+                } else {
+                    args.extend(del.iter().cloned());
+                }
+                let av: Vec<&str> = args.iter().map(|s| s.as_str()).collect();
+                let o = cli::run(&av, &dir, None);
+                let got = FileState::read(&format!("{dir}/o.skf"));
+                if o.code != 0 || got.as_ref().map(|g| &g.table) != Ok(&want) {
+                    rep.violate(
+                        format!("cli delete names with spaces via_file={via_file} del={del:?} k={k}"),
+                        format!("ska delete of {del:?} ({}) exit {}: result is {:?}, expected names {:?}", if via_file { "names file" } else { "command line" }, o.code, got.as_ref().map(|g| g.table.names.clone()), want.names),
+                        json!({"cli": true, "k": k, "delete": del, "via_file": via_file}),
+                    );
+                }
+            }
+        }
+    }
+}
+
 pub fn run(ctx: &Ctx, rep: &mut Report) {
     let thorough = ctx.tier.thorough();
     let cfgs: Vec<(usize, bool, usize, usize)> = if thorough {
@@ -275,5 +339,6 @@ pub fn run(ctx: &Ctx, rep: &mut Report) {
         rep.completed.push(format!("k={k} rc={rc} n={n}"));
     }
     cli_family(ctx, rep, &mut idx);
+    spaced_names(ctx, rep, &mut idx);
     rep.completed.push("CLI family".into());
 }
